@@ -170,7 +170,7 @@ def _read_body(ot: OdeText, fn: str, body: str, mdict, alias):
                 except ZeroDivisionError as e:
                     raise NotC(s, f"division by literal zero: {e}")
                 ot.ydot_order.append(slot)
-                ot.ydot[slot] = p if slot not in ot.ydot else P.add(ot.ydot[slot], {("@@dup", 1): 1})
+                ot.ydot[slot] = p if slot not in ot.ydot else P.add(ot.ydot[slot], {(("@@dup", 1),): 1})
                 ot.raw[("ydot", slot)] = s
                 continue
             m = re.match(r"^(IJth\s*\(\s*jmatrix\s*,|j\s*\()(.*)\)$", lhs)
@@ -186,7 +186,7 @@ def _read_body(ot: OdeText, fn: str, body: str, mdict, alias):
                 ot.subscripts.append((fn, "jac.col", c, ot.neq, parts[1].strip()))
                 ot.jac_order.append((r, c))
                 p = P.to_poly(rast, mdict, alias)
-                ot.jac[(r, c)] = p if (r, c) not in ot.jac else P.add(ot.jac[(r, c)], {("@@dup", 1): 1})
+                ot.jac[(r, c)] = p if (r, c) not in ot.jac else P.add(ot.jac[(r, c)], {(("@@dup", 1),): 1})
                 ot.raw[("jac", r, c)] = s
                 continue
             m = re.match(r"^(rowptrs|colvals|data)\s*\[(.*)\]$", lhs)
@@ -284,5 +284,5 @@ def csr_entries(ot: OdeText) -> dict:
                 break
         col = cv[n] if n < len(cv) else None
         key = (row, col) if row is not None and col is not None else ("?", n)
-        out[key] = p if key not in out else P.add(out[key], {("@@dup", 1): 1})
+        out[key] = p if key not in out else P.add(out[key], {(("@@dup", 1),): 1})
     return out
